@@ -155,11 +155,21 @@ func jAmount(n *jnode) (*big.Int, error) {
 	return v, nil
 }
 
+// the protocol's asset list, spelled exactly; kept here so that the recogniser does not consult the parser's own table
+var c20Tickers = func() map[string]bool {
+	m := map[string]bool{}
+	for _, t := range strings.Fields(`PEG pUSD pEUR pJPY pGBP pCAD pCHF pINR pSGD pCNY pHKD pKRW pBRL pPHP pMXN pXAU pXAG pXBT pETH pLTC pRVN pXBC pFCT pBNB pXLM pADA pXMR pDASH pZEC pDCR
+		pAUD pNZD pSEK pNOK pRUB pZAR pTRY pEOS pLINK pATOM pBAT pXTZ pHBAR pNEO pCRO pETC pONT pDOGE pVET pHT pALGO pDGB pAED pARS pTWD pRWF pKES pUGX pTZS pBIF pETB pNGN`) {
+		m[t] = true
+	}
+	return m
+}()
+
 func jTicker(n *jnode) (string, error) {
 	if n == nil || n.kind != 's' {
 		return "", fmt.Errorf("ticker is not a string")
 	}
-	if fat2.StringToTicker(n.str) == fat2.PTickerInvalid {
+	if !c20Tickers[n.str] {
 		return "", fmt.Errorf("unknown ticker %q", n.str)
 	}
 	return n.str, nil
